@@ -46,3 +46,17 @@ def history(case):
                     if v != ref:
                         bad.append(dict(scenario=k, generator=gk, method=method, n=n, order=order, fun=f.__name__, got=v, fresh=ref))
     return dict(reproduced=bool(bad), failing=bad[:4], statement='result after any history == result of a freshly constructed object')
+
+
+@reg('C09.cache0')
+def cache0(case):
+    """fresh interpreter: a rule served from the cache as populated at import == the rule computed after clearing it"""
+    import numdifftools.finite_difference as fd
+    bad = []
+    init = {k: np.array(v) for k, v in fd.FD_RULES.items()}
+    for key, val in init.items():
+        want = fd.linalg.pinv(fd.LogRule._fd_matrix(*key))
+        if not np.array_equal(val, want):
+            bad.append(dict(key=repr(key), max_abs_difference=float(np.max(np.abs(val - want)))))
+    return dict(reproduced=bool(bad), failing=bad[:4], entries_at_import=len(init),
+                statement='cache content at import == what rule() computes with an empty cache (bit-for-bit)')
